@@ -110,6 +110,11 @@ func (f *c14Filter) OnReceive(ctx context.Context, headers api.HeaderMap, buf ap
 		resp := bolt.NewRpcResponse(0, bolt.ResponseStatusServerThreadpoolBusy, hpHeader(map[string]string{"token": "direct-by-filter"}), buffer.NewIoBufferString("resp-of-direct-by-filter"))
 		f.rh.SendDirectResponse(resp, resp.Content, nil)
 		ret = api.StreamFilterStop
+	case "direct-cont":
+		// answers with a complete response (headers + body) and lets the chain go on: a later filter may
+		// answer again (a body-less hijack then has to replace the WHOLE stored response; seeded change C14-r6)
+		resp := bolt.NewRpcResponse(0, bolt.ResponseStatusServerThreadpoolBusy, hpHeader(map[string]string{"token": "direct-by-filter"}), buffer.NewIoBufferString("resp-of-direct-by-filter"))
+		f.rh.SendDirectResponse(resp, resp.Content, nil)
 	case "rematch":
 		if f.calls == 1 {
 			ret = api.StreamFilterReMatchRoute
@@ -202,12 +207,12 @@ func c14Name(sc *hpScenario) string {
 func c14Scenarios(maxRecv, maxSend int, scripts []string) []hpScenario {
 	phases := []string{"before-route", "after-route", "after-choose-host"}
 	verdicts := map[string][]string{
-		"before-route":      {"continue", "stop", "terminate", "hijack", "hijack-stop", "direct"},
+		"before-route":      {"continue", "stop", "terminate", "hijack", "hijack-stop", "direct", "direct-cont"},
 		// "rechoose" from an after-route filter and "rematch" from an after-choose-host filter are the
 		// two verdicts outside their documented phase: the statement does not say whether they are
 		// honoured (this tree ignores them), only that an honoured one resumes at the requesting filter
-		"after-route":       {"continue", "stop", "terminate", "hijack", "hijack-stop", "direct", "rematch", "rematch-noroute", "rechoose"},
-		"after-choose-host": {"continue", "stop", "terminate", "hijack", "hijack-stop", "direct", "rechoose", "rechoose-nohost", "rematch"},
+		"after-route":       {"continue", "stop", "terminate", "hijack", "hijack-stop", "direct", "direct-cont", "rematch", "rematch-noroute", "rechoose"},
+		"after-choose-host": {"continue", "stop", "terminate", "hijack", "hijack-stop", "direct", "direct-cont", "rechoose", "rechoose-nohost", "rematch"},
 	}
 	var recvChains [][]hpFilter
 	var gen func(cur []hpFilter, n int)
@@ -342,7 +347,7 @@ func c14CheckReq(sc *hpScenario, k int, obs *hpObs, report func(kind, detail str
 		}
 		lastIdx, lastPhase = e.idx, e.phase
 		v := filters[e.idx].Verdict
-		if v == "hijack" || v == "hijack-stop" || v == "direct" {
+		if v == "hijack" || v == "hijack-stop" || v == "direct" || v == "direct-cont" {
 			answered = true
 		}
 		if v == "terminate" {
@@ -438,7 +443,7 @@ func c14CheckReq(sc *hpScenario, k int, obs *hpObs, report func(kind, detail str
 				v := filters[e.idx].Verdict
 				if v == "hijack" || v == "hijack-stop" {
 					want = c14HijackStatus(sc)
-				} else if v == "direct" {
+				} else if v == "direct" || v == "direct-cont" {
 					want = bolt.ResponseStatusServerThreadpoolBusy
 				} else {
 					continue
@@ -452,9 +457,23 @@ func c14CheckReq(sc *hpScenario, k int, obs *hpObs, report func(kind, detail str
 				if (v == "hijack" || v == "hijack-stop") && down[0].Status == c14HijackStatus(sc) {
 					ok = true
 				}
-				if v == "direct" && down[0].Status == bolt.ResponseStatusServerThreadpoolBusy {
+				if (v == "direct" || v == "direct-cont") && down[0].Status == bolt.ResponseStatusServerThreadpoolBusy {
 					ok = true
 				}
+			}
+			// ... and the response is ONE answer as a whole: the filter's direct response carries its own header
+			// token and body, a hijack reply has no body and never the direct response's header (whenever both
+			// kinds of answer were given in one request, the client must not get a mixture of the two)
+			hij, dir := false, false
+			for _, e := range recv {
+				v := filters[e.idx].Verdict
+				hij = hij || v == "hijack" || v == "hijack-stop"
+				dir = dir || v == "direct" || v == "direct-cont"
+			}
+			isDir := down[0].Token == "direct-by-filter" && down[0].BodyToken == "direct-by-filter" // hpFrame strips the "resp-of-" prefix
+			isHij := down[0].Token != "direct-by-filter" && down[0].BodyToken == ""
+			if ok && !((dir && down[0].Status == bolt.ResponseStatusServerThreadpoolBusy && isDir) || (hij && down[0].Status == c14HijackStatus(sc) && isHij)) {
+				report("the response mixes parts of different answers (status / headers / body not from one answering filter)", fmt.Sprintf("status %d header token %q body %q; filters: %s", down[0].Status, down[0].Token, down[0].BodyToken, logStr))
 			}
 			if !ok {
 				report("the response is not the one the answering filter produced", fmt.Sprintf("status %d, first answering filter would give %d; filters: %s", down[0].Status, want, logStr))
